@@ -568,3 +568,116 @@ def c13_cases(tier, rng):
                                       check_ms=rng.choice([1000, 500]), disposition=rng.random() < 0.3)
                             yield LateDataCase(cfg, nseg, late, list(slots), tail=rng.choice([0, 1]) if cfg.max_seg > 1 else 0,
                                                coincide=co)
+
+
+# ------------------------------------------------------------------ C13, sender clause
+class SenderClosureCase:
+    """Unacknowledged put with closure on a sender whose receiver stays silent (or answers late): one or more
+    transactions on the SAME handler, idle gaps between them, the clock advanced in steps smaller than the check interval."""
+
+    def __init__(self, cfg: Cfg, txs, tag="c13s"):
+        self.cfg, self.txs, self.tag = cfg, list(txs), tag       # txs: (size, finished_after_ms | None, gap_ms)
+
+    def describe(self):
+        return {"check_ms": self.cfg.check_ms, "seg": self.cfg.max_seg, "txs": self.txs}
+
+    def run(self):
+        from harness.transfer import start_transfer
+        cfg = self.cfg
+        w = World(cfg, self.tag)
+        try:
+            s = w.src
+            tick = max(1, cfg.check_ms // 4)
+            for size, fin_after, gap in self.txs:
+                data = bytes((7 * i + 3) % 256 for i in range(size))
+                start_transfer(w, data)
+                waited = None
+                for _ in range(200):
+                    s.sm(None)
+                    got = []
+                    while True:
+                        h = s.get()
+                        if h is None:
+                            break
+                        got.append(h)
+                    if s.h.state.value == 0:
+                        break
+                    if waited is None and any(codec.enc_pdu(p.pdu if hasattr(p, "pdu") else p, w.pm)[0] == codec.K_EOF for p in got):
+                        waited = 0
+                    elif waited is not None:
+                        if fin_after is not None and waited >= fin_after:
+                            t = s.h.transaction_id
+                            hdr = [1, 1, int(cfg.crc), 0, cfg.src_id, cfg.dst_id, max(cfg.src_idw, cfg.dst_idw), t.seq_num.value, cfg.seqw]
+                            s.sm(codec.reparse(codec.build_pdu(campaign.pdu_ints(codec.K_FIN, hdr, [0, 0, 2, 0, 0, 0]), w.pm)))
+                            while s.get() is not None:
+                                pass
+                            continue
+                        w.advance(tick)
+                        waited += tick
+                if s.h.state.value != 0:
+                    break
+                w.advance(gap)
+            self.sides = [("source", s.ops, s.obs)]
+            return self
+        finally:
+            w.close()
+
+
+def oracle_c13_sender(tr: Trace):
+    """Sender clause of C13 on source traces: after the EOF of an unacknowledged transaction with closure, Check Limit Reached
+    is declared at the first call made when the configured check interval has passed without a Finished PDU, not before."""
+    if tr.kind != "source":
+        return
+    check_ms = tr.cfg["check_ms"]
+    now = 0
+    eof_at = None          # time at which the EOF (no error) of the running transaction was produced
+    for k, st in enumerate(tr.steps):
+        if st.tag == 5:
+            now += st.op[1]
+            continue
+        if st.tag == 8 and st.ob["ret"] == 1:
+            eof_at = None
+            continue
+        if st.tag not in (0, 1) or st.prev is None or st.prev["fields"]["state"] != 1:
+            continue
+        if st.ob["exc"]:
+            continue
+        faults = [e for e in st.ob["events"] if 11 <= e[0] <= 14 and e[3] == 10]
+        got = []
+        j = k + 1
+        while j < len(tr.steps) and tr.steps[j].tag == 2:
+            if tr.steps[j].ob["ret"] == 1:
+                got.append(codec.dec_got(tr.steps[j].ob["extra"])[0])
+            j += 1
+        if any(g["kind"] == codec.K_EOF and g["cond"] == 0 and g["mode"] == 1 for g in got):
+            eof_at = now
+            if faults:
+                raise Failure(f"C13 sender declared Check Limit Reached in the call that produced its EOF (op {st.i})")
+            continue
+        if eof_at is None:
+            continue
+        if st.tag == 0 and st.pdu["kind"] == codec.K_FIN:
+            eof_at = None
+            continue
+        expired = now - eof_at >= check_ms
+        if faults and not expired:
+            raise Failure(f"C13 sender declared Check Limit Reached {now - eof_at} ms after its EOF, before the check interval of "
+                          f"{check_ms} ms had passed (op {st.i})")
+        if expired and not faults and st.prev["fields"]["step"] == 8:
+            raise Failure(f"C13 sender did not declare Check Limit Reached although {now - eof_at} ms >= {check_ms} ms passed "
+                          f"without a Finished PDU (op {st.i})")
+        if faults:
+            eof_at = None
+
+
+def c13_sender_cases(tier, rng):
+    quick = tier == "quick"
+    for _ in range(40 if quick else 1500):
+        cfg = Cfg(mode=1, closure=True, max_seg=rng.choice([2, 4]), check_ms=rng.choice([1000, 2000, 400]), cktype=rng.choice([2, 3, 15]),
+                  check_limit=rng.choice([1, 2, 3]))
+        n = rng.choice([1, 2, 2, 3])
+        txs = []
+        for _ in range(n):
+            fin = rng.choice([None, None, 0, cfg.check_ms // 2, cfg.check_ms - 1])
+            txs.append((rng.choice([0, 3, 5, 9]), fin, rng.choice([0, cfg.check_ms // 2, cfg.check_ms, 3 * cfg.check_ms, 20000])))
+        yield SenderClosureCase(cfg, txs)
